@@ -15,7 +15,9 @@ CFG = dict(
                "kernel relocation symbol provenance. Trusted: Coq kernel + vm_compute, harness; the two string-valued keys are "
                "modelled as the tuples they encode, their encodings are transcribed, compared with the real keys and proved injective.",
     rule="inputs = lists of 0..6 profiles instantiated from one pool of functions/mappings/locations/samples with per-profile id "
-         "layouts (dense, shuffled, sparse/huge, rotated so ids collide) and load addresses; systematic single-attribute pairs (61 "
+         "layouts (dense, shuffled, sparse/huge, rotated so ids collide) and load addresses; duplicate records INSIDE one input (same stack and labels; cancelling, partly cancelling, cancelling in one column, "
+         "three-way, int64-wrap cancelling, adding + literal zero, cancel-and-revive; with both / no / string / numeric labels; as a one-element "
+         "list through Merge and through p.Compact(), and in 2-3 input lists); systematic single-attribute pairs (61 "
          "attributes of mapping/function/line/location/label/num-label/stack x same-profile, two-profile, crossed, cancelling); header "
          "rule tables (times with zeros/negatives, periods, wrapping durations, comments), incompatible/empty/nil-period-type lists, "
          "GenProfile lists incl. a profile with itself or its negation, regression witnesses F1/F2/F24, finding F25; 100+ sampleKey byte "
